@@ -3,6 +3,9 @@
    a BytesIO, only then open/write the sink). *)
 From Skv Require Import PyStr Json Fs FsFacts Dump DumpFacts.
 From Skv Require PyVal CodecDump CodecInsideFacts SinkFacts.
+From Coq Require String.
+From Skv Require CallGraph CallGraphFacts.
+From Gen Require CallGraphGen.
 
 (* _save raised: no operation at all on the sink - path that exists, path that does
    not, open file object - and the same exception leaves dump *)
@@ -142,3 +145,24 @@ Proof.
   - apply CodecInsideFacts.property_always_raises.
 Qed.
 Print Assumptions C18_unpersistable_kinds.
+
+(* ---- the translated source (harness/callgraph.py re-translates skops/io on every run; see C02): dump() is split at its
+   call of _save.  Everything dump() can call -- directly or through any chain of calls inside skops.io -- up to and
+   including the serialisation uses no file-system primitive: only writers that stay in memory (np.save / save_npz into a
+   local io.BytesIO(), writestr into the zip _save builds over a local io.BytesIO(): the translator checks those argument
+   shapes and labels them mem:) and reflection on live objects.  The destination is opened by the code AFTER that point. *)
+Theorem C18_static_serialise_before_touching :
+  forall e f, In e CallGraphGen.dump_entries -> CallGraphFacts.reach CallGraphGen.callgraph e f ->
+    CallGraph.inert_with CallGraph.permitted_in_memory CallGraphGen.callgraph f = true.
+Proof. apply (CallGraphFacts.static_inert_with _ _ CallGraphGen.dump_reach_hint). vm_compute. reflexivity. Qed.
+Print Assumptions C18_static_serialise_before_touching.
+
+Theorem C18_static_entries : CallGraphGen.dump_entries = ["_persist.dump@pre"]%string.
+Proof. reflexivity. Qed.
+Print Assumptions C18_static_entries.
+
+(* non-vacuity: the part of dump() AFTER the serialisation does touch the file system (open / write of the destination) *)
+Theorem C18_static_not_blind :
+  CallGraph.inert_with CallGraph.permitted_in_memory CallGraphGen.callgraph "_persist.dump@post"%string = false.
+Proof. vm_compute. reflexivity. Qed.
+Print Assumptions C18_static_not_blind.
